@@ -9,9 +9,14 @@ if [ $# -eq 0 ]; then set -- $(ls seeded); fi
 ok=0; bad=0
 for n in "$@"; do
     prop=$(jq -r .breaks_property seeded/$n/meta.json)
-    git -C /repo apply "$PWD/seeded/$n/patch.diff" || { echo "$n: patch does not apply"; bad=$((bad+1)); continue; }
-    t0=$(date +%s); out=$(./check "$prop" quick 2>&1); rc=$?; t1=$(date +%s)
-    git -C /repo checkout -- .
+    if [ -n "${ALT:-}" ]; then
+        # isolated scratch copy, /repo untouched (tools/alt_eval.sh)
+        t0=$(date +%s); out=$(tools/alt_eval.sh "$prop" "$PWD/seeded/$n/patch.diff" quick 2>&1); rc=$?; t1=$(date +%s)
+    else
+        git -C /repo apply "$PWD/seeded/$n/patch.diff" || { echo "$n: patch does not apply"; bad=$((bad+1)); continue; }
+        t0=$(date +%s); out=$(./check "$prop" quick 2>&1); rc=$?; t1=$(date +%s)
+        git -C /repo checkout -- .
+    fi
     if [ $rc -eq 1 ] && echo "$out" | grep -q '^VIOLATION'; then ok=$((ok+1)); echo "$n: detected by $prop quick in $((t1-t0)) s"
     else bad=$((bad+1)); echo "$n: NOT detected by $prop quick (rc=$rc)"; fi
 done
